@@ -11,6 +11,7 @@ mod c09;
 mod c11;
 mod c13;
 mod c14;
+mod c15;
 mod sp;
 mod case;
 mod gen;
@@ -86,6 +87,10 @@ fn main() {
                 "C08" => {
                     rep = Report::new("C08", "trees (every shape up to a node bound with all / no / mixed lengths; random trees to hundreds of leaves, polytomies, unary nodes, both root styles, internal labels spelled like leaves) in five arena layouts (leaf arena order differs from name order); stream A = dyadic lengths, every sum exact, compared for EXACT equality with three model computations (arena fold, rose recursion, recursive algorithm); stream B = decimal lengths compared within 1e-9 with an independent path walk; a case is one tree; non-trivial = unique leaf names, at least three leaves, a node with two or more children");
                     c08::run(tier == "thorough", seed, &driver, &mut rep);
+                }
+                "C15" => {
+                    rep = Report::new("C15", "symmetric non-negative integer matrices: every matrix on 2-4 taxa with entries up to a bound, random matrices to 30 (60) taxa with large distinct entries (tie-free), with small entries (deliberate ties), and ultrametric matrices derived from random clock-like trees, taxa in random order; the exact rational model is compared with the crate's tree (topology, child order, names; lengths exactly when dyadic, else 1e-9; cases whose smallest positive decision margin is below 1e-6 are not compared); a case is one matrix; non-trivial = at least three taxa");
+                    c15::run(tier == "thorough", seed, &driver, &mut rep);
                 }
                 "C02" => {
                     rep = Report::new("C02", "strings fed to Tree::from_newick (corpus, every string up to a length bound over the token alphabet ( ) , ; : [ ] \" a 1 space, every short float lexeme, mutated valid Newick, random Unicode); a case is one string; non-trivial = contains at least one structural token");
